@@ -12,7 +12,9 @@ RULE = ("seeded generator: (pu) every string over a 4-letter alphabet up to leng
         "range lists incl. reversed ranges; (ival) hop-interval configurations around 0, 5 s, min>max, one-sided, negative, int64 "
         "extremes; (hop) udpHopPacketConn histories in a synctest bubble with fake sockets: timer-driven and direct hops racing "
         "writers, readers, deadline/buffer setters, datagram arrivals on cur/prev/older sockets, read timeouts and Close at the same "
-        "fake instant, scripted listen failures (incl. the constructor's), a full receive queue, operations after Close. "
+        "fake instant, scripted listen failures (incl. the constructor's), scripted socket faults (Close() of the previous / the current / "
+        "both / every socket reporting an error while Close or a hop closes it; Set* calls reporting errors), a ReadFrom parked in its select "
+        "when Close comes, hop timers given time to fire after Close, a full receive queue, operations after Close. "
         "Non-trivial = expression with >= 2 items or rejected; history with >= 2 successful hops or a failed listen. Distinct = distinct JSON case.")
 ASSUMPTIONS = [
     "net.ResolveIPAddr / net.SplitHostPort (host part of the hop address) are not modelled; the IP is an opaque value copied into every address",
@@ -231,8 +233,17 @@ def gen_hop_one(rng, big=False, full=False):
     fail = sorted(set(rng.sample(range(1, nl), rng.choice([0, 0, 1, 2, nl // 2]))))
     if rng.random() < 0.04:
         fail = [0] + fail
+    # socket faults.  Socket ids are creation ordinals and prev = cur - 1 whenever there is a prev, so the parity plans make
+    # exactly one of the two sockets that Close has to close report an error; "all" makes both; "rand" mixes.
+    nid = nl + 8
+    plan = rng.choice(["none", "none", "none", "all", "even", "odd", "rand", "rand"])
+    cerr = {"none": [], "all": list(range(nid)), "even": list(range(0, nid, 2)), "odd": list(range(1, nid, 2)),
+            "rand": [i for i in range(nid) if rng.random() < 0.5]}[plan]
+    ps = rng.choice([0, 0, 0.2, 0.6])
+    serr = [i for i in range(80) if rng.random() < ps]
     return {"k": "hop", "ports": ports, "min": mn * 10**6, "max": mx * 10**6, "seed": rng.randrange(2**31), "fail": fail,
-            "ops": ops, "end": end, "drain": full or rng.random() < 0.6, "workers": workers + 3}
+            "ops": ops, "end": end, "drain": full or rng.random() < 0.6, "workers": workers + 3,
+            "cerr": cerr, "serr": serr, "blk": rng.random() < 0.5}
 
 
 def gen_pu_exhaustive(alphabet, maxlen):
@@ -322,7 +333,9 @@ def ev_terms(c, o):
         if k == "L":
             terms.append("EL %s %d%%nat %d%%nat" % ("true" if e[1] == 1 else "false", max(e[2], 0), prophecy(i) if e[1] == 1 else 0))
         elif k == "C":
-            terms.append("EC %d%%nat" % e[1])
+            terms.append("EC %d%%nat %s" % (e[1], "true" if (len(e) > 2 and e[2]) else "false"))
+        elif k == "CLR":
+            terms.append("ECR %s" % ("true" if e[1] else "false"))
         elif k == "S":
             terms.append("ES %d%%nat %s %s" % (e[1], KINDS[e[2]], zlit(e[3])))
         elif k == "W":
@@ -374,8 +387,10 @@ def to_coq(c, o):
         r0, terms = ev_terms(c, o)
         ctor_ok = not o.get("ctor_err")
         census = "[" + ";".join("(%s,%d)" % ("true" if a else "false", b) for a, b in o["census"]) + "]"
-        return "CHop %s %s %d%%nat [%s] %s" % (common.coq_bytes(c["ports"].encode()), "true" if ctor_ok else "false", r0,
-                                              ";\n  ".join(terms), census)
+        # the sockets scripted to report an error from Close (only those that came to exist matter)
+        cerrs = "[" + ";".join("%d%%nat" % k for k in c.get("cerr", []) if k < len(o["census"])) + "]"
+        return "CHop %s %s %d%%nat %s [%s] %s" % (common.coq_bytes(c["ports"].encode()), "true" if ctor_ok else "false", r0, cerrs,
+                                                 ";\n  ".join(terms), census)
     return None
 
 
@@ -393,6 +408,22 @@ def hop_features(o):
     return okhops, failed, arr_prev
 
 
+def close_faults(o):
+    """which of the sockets closed by Close itself (not by a hop) reported an error: none / prev / cur / both / noprev+cur.
+    A hop logs L before it closes its prev, so its C names newest-2; Close's C records name newest-1 (prev) and newest (cur)."""
+    newest, pf, cf, hadprev = -1, False, False, False
+    for e in o.get("log") or []:
+        if e[0] == "L" and e[1] == 1:
+            newest = e[2]
+        elif e[0] == "C" and len(e) > 2:
+            if e[1] == newest:
+                cf = cf or bool(e[2])
+            elif e[1] == newest - 1:
+                hadprev = True
+                pf = pf or bool(e[2])
+    return ("both" if pf and cf else "prev" if pf else "cur" if cf else "none") + ("" if hadprev else "-noprev")
+
+
 def klass(c, o):
     k = c["k"]
     if k == "pu":
@@ -406,7 +437,8 @@ def klass(c, o):
     if o.get("ctor_err"):
         return "hop:ctor-failed"
     okh, failed, ap = hop_features(o)
-    return "hop:hops%s:fail%s:prevarr%s" % ("<2" if okh < 2 else "2-5" if okh <= 5 else ">5", "0" if failed == 0 else "+", "0" if ap == 0 else "+")
+    return "hop:hops%s:fail%s:prevarr%s:closefault-%s" % ("<2" if okh < 2 else "2-5" if okh <= 5 else ">5", "0" if failed == 0 else "+",
+                                                        "0" if ap == 0 else "+", close_faults(o))
 
 
 def nontrivial(c, o):
